@@ -7,6 +7,7 @@ EXPLANATION = (
     "narrowing integer cast of an accumulator (i128 -> i64, or any wider -> narrower signed cast) is dominated by a range test of the same value, "
     "or replaced by a checked conversion; and every integer accumulation in i64 uses checked arithmetic (no raw `+` on i64 operands). "
     "count / min / max / collect values and grouping are runtime-value behaviour and are not decided."
+    " C21.3: every evaluation of the aggregated expression in execute_aggregate and its closures is null-tested (variant match, comparison with Value::Null, or the filter adaptor fed by the mapping closure) before it is folded."
 )
 
 PREFIX = "nervusdb_query::executor::projection_sort::"
